@@ -26,7 +26,8 @@ for d in sorted(glob.glob("/verif/mutants/*/*.diff")):
     try:
         run_props = [prop] if not benign else ([prop] if prop != "benign" else (props or []))
         for pr in run_props:
-            c = subprocess.run(["/verif/check", pr], capture_output=True, text=True, cwd="/verif")
+            c = subprocess.run(["/verif/check", pr], capture_output=True, text=True, cwd="/verif",
+                               env=dict(os.environ, VERIF_EVIDENCE_DIR="/tmp/mutest-evidence"))
             fired = [l for l in c.stdout.splitlines() if " | " in l and l.strip().startswith(("src/", "/"))]
             rules = sorted({l.split("] ")[1].split(" | ")[0] for l in fired if "] " in l})
             if benign:
